@@ -408,6 +408,13 @@ class WorldMon:
       if woke.any():
         just = set(int(t) for t in np.nonzero(~S0)[0]) | set(int(t) for t in np.nonzero(pert)[0])
         cause = {int(t): ("perturbation" if pert[t] else "awake") for t in just}
+        cyc0_of = {t: c for c in cyc0 for t in c}
+        for kind, ts in links:
+          # an active connect/weld/joint equality between two sleeping trees of different cycles wakes both (MuJoCo semantics)
+          if kind == "equality" and S0[ts[0]] and S0[ts[1]] and cyc0_of.get(ts[0]) != cyc0_of.get(ts[1]):
+            for t in ts:
+              just.add(int(t))
+              cause[int(t)] = "equality_two_sleeping_cycles"
         changed = True
         while changed:
           changed = False
